@@ -452,7 +452,7 @@ Definition srv_read (mtu : Z) (value : list Z) : rresp :=
 Definition srv_read_blob (mtu : Z) (value : list Z) (off : Z) : rresp :=
   let len := Z.of_nat (length value) in
   if len <? off then VErr ATT_INVALID_OFFSET
-  else if len <=? mtu - 1 then VErr ATT_NOT_LONG
+  else if andb (off =? 0) (len <=? mtu - 1) then VErr ATT_NOT_LONG     (* after D12f: only at offset 0 *)
   else VVal (sublist off (Z.min (mtu - 1) (len - off)) value).
 
 Inductive routcome := RDone (v : list Z) | RRaised (code : Z) | ROutOfFuel.
@@ -488,6 +488,44 @@ Definition read_value (fuel : nat) (first : rresp) (blob : Z -> rresp) (mtu : Z)
 (* the client reading, from a Bumble server, an attribute whose current value is [value] *)
 Definition read_from_server (fuel : nat) (mtu : Z) (value : list Z) : routcome :=
   read_value fuel (srv_read mtu value) (srv_read_blob mtu value) mtu false.
+
+(* The same with an ATT_MTU that changes while the read is in progress (an MTU exchange queued on
+   the client's request semaphore is served between two requests of read_value): [m k] is the
+   ATT_MTU in force, on both ends of the bearer, when the k-th response of this read (0 = the
+   Read Response) is built by the server and handed to the client.  read_value compares against
+   self.mtu AFTER each await, i.e. against [m k]. *)
+Fixpoint read_blob_loop_dyn (fuel : nat) (blob : nat -> Z -> rresp) (m : nat -> Z) (k : nat) (acc : list Z) (off : Z) : routcome :=
+  match fuel with
+  | O => ROutOfFuel
+  | S f =>
+      if 0xFFFF <? off then RRaised (-4) else
+      match blob k off with
+      | VNone => RRaised (-3)
+      | VErr c => if orb (c =? ATT_NOT_LONG) (c =? ATT_INVALID_OFFSET) then RDone acc else RRaised c
+      | VVal part =>
+          let acc' := acc ++ part in
+          if Z.of_nat (length part) <? m k - 1 then RDone acc'
+          else read_blob_loop_dyn f blob m (S k) acc' (off + Z.of_nat (length part))
+      end
+  end.
+
+Definition read_value_dyn (fuel : nat) (first : rresp) (blob : nat -> Z -> rresp) (m : nat -> Z) : routcome :=
+  match first with
+  | VNone => RRaised (-3)
+  | VErr c => RRaised c
+  | VVal v =>
+      if Z.of_nat (length v) =? m 0%nat - 1
+      then read_blob_loop_dyn fuel blob m 1 v (Z.of_nat (length v))
+      else RDone v
+  end.
+
+Definition read_from_server_dyn (fuel : nat) (m : nat -> Z) (value : list Z) : routcome :=
+  read_value_dyn fuel (srv_read (m 0%nat) value) (fun k off => srv_read_blob (m k) value off) m.
+
+(* NOT the code: the long-read tests made against a snapshot of the ATT_MTU taken before the
+   first request was sent; only for read_value_stale_mtu_refuted *)
+Definition read_from_server_stale (fuel : nat) (snapshot : Z) (m : nat -> Z) (value : list Z) : routcome :=
+  read_value_dyn fuel (srv_read (m 0%nat) value) (fun k off => srv_read_blob (m k) value off) (fun _ => snapshot).
 
 (* on_att_write_request / on_att_write_command on a plain attribute: the value store *)
 Definition GATT_MAX_ATTRIBUTE_VALUE_SIZE := 512.
